@@ -16,17 +16,87 @@ TECHNIQUE = "boundary-value differential testing of emitted iteration sequences 
 RULE = ("(start, stop, step) with step in +-{1,2,3,7,2^62,2^63-1}, start/stop from small values, "
         "values within a few steps of +-2^63, and random; 1-/2-/3-argument forms; each loop reports its "
         "elements then a marker. Static: array(i for i in range(n)) annotated array[int, m], n,m in "
-        "0..6. distinct = (form, step sign, empty?, near-bound?) cells")
-FLOORS = {"loops_compared": 100, "static_sizes_checked": 10}
+        "0..6. Use shapes: Range obtained in checking position (returned / annotated) from nat and int "
+        "runtime values, range over a runtime nat, over a const generic and over a local shadowing the "
+        "generic's name, comprehension over a const generic, nested dependent ranges. "
+        "distinct = (form, step sign, empty?, near-bound?) cells")
+FLOORS = {"loops_compared": 100, "static_sizes_checked": 10, "use_shape_loops_compared": 40}
 I63 = 2**63
 FUEL = 44
-HDR = ("from guppylang import guppy\nfrom guppylang.std.builtins import result, array\n\n"
+HDR = ("from guppylang import guppy\nfrom guppylang.std.builtins import result, array, Range, nat, range\n\n"
+       "n = guppy.nat_var(\"n\")\n\n"
        f"@guppy\ndef r1(b: int) -> None:\n    fuel = {FUEL}\n    for i in range(b):\n"
        "        if fuel == 0:\n            break\n        fuel -= 1\n        result(\"i\", i)\n    result(\"end\", 1)\n\n"
        f"@guppy\ndef r2(a: int, b: int) -> None:\n    fuel = {FUEL}\n    for i in range(a, b):\n"
        "        if fuel == 0:\n            break\n        fuel -= 1\n        result(\"i\", i)\n    result(\"end\", 2)\n\n"
        f"@guppy\ndef r3(a: int, b: int, s: int) -> None:\n    fuel = {FUEL}\n    for i in range(a, b, s):\n"
        "        if fuel == 0:\n            break\n        fuel -= 1\n        result(\"i\", i)\n    result(\"end\", 3)\n\n")
+
+
+def _loop(src, tag_end, ind="    "):
+    return (f"{ind}fuel = {FUEL}\n{ind}for i in {src}:\n{ind}    if fuel == 0:\n{ind}        break\n"
+            f"{ind}    fuel -= 1\n{ind}    result(\"i\", i)\n{ind}result(\"end\", {tag_end})\n")
+
+
+# range() in other positions than `for i in range(..)` over ints: a Range obtained in *checking*
+# position (return value, annotated assignment) from nat / int runtime values, a Range passed
+# around, range over a const generic (statically sized) and over a local that shadows the generic's
+# name afterwards, nested ranges whose inner bounds depend on the outer element.
+SHAPES = (
+    "@guppy\ndef mkn(k: nat) -> Range:\n    return range(k)\n\n"
+    "@guppy\ndef mki(a: int, b: int) -> Range:\n    return range(a, b)\n\n"
+    "@guppy\ndef g_ret(k: nat) -> None:\n" + _loop("mkn(k)", 4) + "\n"
+    "@guppy\ndef g_ret2(a: int, b: int) -> None:\n" + _loop("mki(a, b)", 5) + "\n"
+    "@guppy\ndef g_ann(k: nat, d: nat) -> None:\n    r: Range = range(k + d)\n" + _loop("r", 6) + "\n"
+    "@guppy\ndef g_anni(a: int) -> None:\n    r: Range = range(a)\n" + _loop("r", 7) + "\n"
+    "@guppy\ndef g_natfor(k: nat) -> None:\n" + _loop("range(k)", 8) + "\n"
+    "@guppy\ndef g_gen(xs: array[int, n], limit: int) -> None:\n" + _loop("range(n)", 9)
+    + "    n = limit\n" + _loop("range(n)", 10) + _loop("range(n, 0, -1)", 11) + "\n"
+    "@guppy\ndef g_genc(xs: array[int, n]) -> None:\n"
+    "    ys = array(i + 1 for i in range(n))\n    t = 0\n    for y in ys:\n        t += y\n"
+    "    result(\"i\", t)\n    result(\"end\", 12)\n" + _loop("range(n)", 14) + "\n"
+    "@guppy\ndef g_nest(a: int, b: int) -> None:\n    fuel = " + str(FUEL) + "\n    for i in range(a):\n"
+    "        for j in range(i, b):\n            if fuel == 0:\n                break\n            fuel -= 1\n"
+    "            result(\"i\", i * 100 + j)\n    result(\"end\", 13)\n\n"
+)
+
+
+def gen_shapes(rng):
+    """[(call text, [(form, a, b, s, expected)...])] for the use-shape functions."""
+    out = []
+    for _ in range(rng.randint(4, 7)):
+        k = rng.choice(["ret", "ret2", "ann", "anni", "natfor", "gen", "nest"])
+        if k == "ret":
+            v = rng.randint(0, 9)
+            out.append((f"    g_ret({v})", [("ret", 0, v, 1, list(range(v)))]))
+        elif k == "ret2":
+            a, b = rng.randint(-5, 5), rng.randint(-5, 9)
+            out.append((f"    g_ret2({a}, {b})", [("ret2", a, b, 1, list(range(a, b)))]))
+        elif k == "ann":
+            v, d = rng.randint(0, 6), rng.randint(0, 3)
+            out.append((f"    g_ann({v}, {d})", [("ann", 0, v + d, 1, list(range(v + d)))]))
+        elif k == "anni":
+            v = rng.randint(-3, 9)
+            out.append((f"    g_anni({v})", [("anni", 0, v, 1, list(range(v)))]))
+        elif k == "natfor":
+            v = rng.randint(0, 9)
+            out.append((f"    g_natfor({v})", [("natfor", 0, v, 1, list(range(v)))]))
+        elif k == "gen":
+            m, lim = rng.randint(1, 6), rng.randint(-1, 8)
+            arr = ", ".join(str(rng.randint(0, 9)) for _ in range(m))
+            out.append((f"    g_gen(array({arr}), {lim})",
+                        [("gen-const", 0, m, 1, list(range(m))),
+                         ("gen-shadow", 0, lim, 1, list(range(lim))),
+                         ("gen-shadow3", lim, 0, -1, list(range(lim, 0, -1)))]))
+            if rng.random() < 0.6:
+                out.append((f"    g_genc(array({arr}))",
+                            [("gen-compr", 0, m, 1, [sum(i + 1 for i in range(m))]),
+                             ("gen-const", 0, m, 1, list(range(m)))]))
+        else:
+            a, b = rng.randint(0, 4), rng.randint(0, 5)
+            out.append((f"    g_nest({a}, {b})",
+                        [("nest", a, b, 1, [i * 100 + j for i in range(a) for j in range(i, b)])]))
+    return out
 
 
 def plan(tier, seed):
@@ -99,10 +169,16 @@ def run_case(ctx, rng, idx, params, tier):
         stext.append(f"@guppy\ndef st{k}() -> int:\n    xs: array[int, {m}] = array(i for i in range({n}))\n"
                      f"    return len(xs)\n\n")
         static.append((k, n, m))
-    text = HDR + "".join(stext) + "@guppy\ndef main() -> None:\n" + "\n".join(calls) + "\n"
+    items = [(c, [e]) for c, e in zip(calls, plan_)]
+    for it in gen_shapes(rng):
+        items.insert(rng.randint(0, len(items)), it)
+    calls = [c for c, _ in items]
+    plan_ = [e for _, es in items for e in es]
+    text = HDR + SHAPES + "".join(stext) + "@guppy\ndef main() -> None:\n" + "\n".join(calls) + "\n"
     ld = ctx.load(text, "range")
     viols = []
-    counters = {"loops_compared": 0, "elements_compared": 0, "static_sizes_checked": 0}
+    counters = {"loops_compared": 0, "elements_compared": 0, "static_sizes_checked": 0,
+                "use_shape_loops_compared": 0}
     cells = set()
     ok_static = []
     for k, n, m in static:
@@ -124,7 +200,17 @@ def run_case(ctx, rng, idx, params, tier):
                           "witness": {"n": n, "m": m}})
         elif got:
             ok_static.append((k, n))
-    pkg = ld.main.compile()
+    try:
+        pkg = ld.main.compile()
+    except BaseException as e:
+        if C.raised_in_harness(e) or type(e).__name__ == "CaseTimeout":
+            raise
+        kind = "guppy-error" if C.is_guppy_error(e) else "crash:" + C.innermost_repo_frame(e)
+        msg = ctx.render(e) if C.is_guppy_error(e) else C.short_tb(e, 3)
+        viols.append({"mech": f"C18:valid-range-program-does-not-compile:{kind}",
+                      "witness": {"error": str(msg)[:1500], "calls": calls[:12]}})
+        return {"status": "violated", "fp": f"case{idx}", "counters": counters,
+                "sets": {"cells": sorted(cells)}, "violations": viols}
     out = ctx.emulate(pkg)
     stream = out.stream()
     pos = 0
@@ -139,6 +225,8 @@ def run_case(ctx, rng, idx, params, tier):
         pos += 1  # end marker
         counters["loops_compared"] += 1
         counters["elements_compared"] += len(exp)
+        if isinstance(form, str):
+            counters["use_shape_loops_compared"] += 1
         near = any(abs(v) > I63 - 2**20 for v in (a, b)) or abs(s) >= 2**62
         cells.add(f"form{form}:{'pos' if s > 0 else 'neg'}:{'empty' if not exp else 'nonempty'}:"
                   f"{'near-bound' if near else 'small'}")
